@@ -216,6 +216,7 @@ func scenarios(w *world, run *vh.Run) []*scenario {
 	out = append(out, scBadReorg(w, rng, rng.Intn(2), 1+rng.Intn(2), 1, txFresh))
 	out = append(out, scBadTip(w, rng, rng.Bool()))
 	if run.Thorough() {
+		out = append(out, scReorg(w, rng, 1, 7, 1, txShared, false, 0)) // a deep window
 		out = append(out, scBadReorg(w, rng, 1, 2, 0, txFresh))
 		out = append(out, scBadReorg(w, rng, 0, 3, 2, txNone))
 		out = append(out, scBadTip(w, rng, true))
